@@ -41,7 +41,7 @@ REACH = [("yamlpath/commands/yaml_get.py", "main,validateargs", "yaml_get.main")
          ("yamlpath/commands/yaml_validate.py", "main,process_file", "yaml_validate.main"),
          ("yamlpath/common/parsers.py", "get_yaml_data,get_yaml_multidoc_data,jsonify_yaml_data", "Parsers")]
 SIZES = {"quick": dict(cases=30000, sub=160), "thorough": dict(cases=250000, sub=1500)}
-REQUIRED_COUNTERS = ["set_delete_many_cases", "set_empty_string_value_cases", "validate_implicit_stdin_cases", "get_inherited_values_cases", "get_docs_ending_in_block_scalar", "set_saveto_cases", "merge_one_multidoc_input_cases", "diff_scalar_root_cases", "get_cases", "set_cases", "merge_cases", "diff_cases", "validate_cases", "stdin_cases",
+REQUIRED_COUNTERS = ["stdin_vs_file_cases", "set_delete_many_cases", "set_empty_string_value_cases", "validate_implicit_stdin_cases", "get_inherited_values_cases", "get_docs_ending_in_block_scalar", "set_saveto_cases", "merge_one_multidoc_input_cases", "diff_scalar_root_cases", "get_cases", "set_cases", "merge_cases", "diff_cases", "validate_cases", "stdin_cases",
                      "json_cases", "subprocess_cases"]
 
 
@@ -428,6 +428,45 @@ def case_set_delete_many(ctx, rng, box, sub):
             after[:150], yp.dump(twin)[:150])})
 
 
+def case_stdin_stream(ctx, rng, box, sub):
+    """The same bytes delivered as a FILE and on STDIN give the same answer: yaml-merge writes the same document, yaml-diff of
+    the file against its own bytes on STDIN reports nothing.  The documents END in a block scalar (|, >, |+, >+, |-) whose
+    final line breaks are data."""
+    style = rng.choice(["|", ">", "|+", ">+", "|-", "|", ">"])
+    body = rng.choice(["line one\n  line two\n", "only line\n", "a\n  b\n\n", "text\n\n\n"])
+    head = rng.choice(["name: x\n", "l:\n  - 1\n  - 2\n", "a:\n  b: 1\n"])
+    text = "%sbody: %s\n  %s" % (head, style, body.replace("\n", "\n  ").rstrip(" "))
+    if not text.endswith("\n"):
+        text += "\n"
+    if rng.random() < 0.3:
+        text = "---\n" + text
+    try:
+        if yp.load(text) is None:
+            return
+    except yp.LoadError:
+        return
+    f = box.file(text)
+    ctx.evaluations += 1
+    ctx.counters["stdin_vs_file_cases"] = ctx.counters.get("stdin_vs_file_cases", 0) + 1
+    ctx.mark_nontrivial(["stdin-vs-file", text])
+    case = {"tool": "yaml-merge / yaml-diff", "doc": text}
+    a = cli.run("yaml_merge", ["-S", f], sandbox=box.dir)
+    b = cli.run("yaml_merge", ["-"], stdin_text=text, sandbox=box.dir)
+    if a["exc"] or b["exc"]:
+        ctx.violation("yaml-merge/crash", {"case": case, "summary": (a["exc"] or b["exc"])[:200]})
+        return
+    if (a["code"], a["out"]) != (b["code"], b["out"]):
+        ctx.violation("yaml-merge/stdin-differs-from-file", {"case": case, "summary": "file: exit %d %r ; STDIN: exit %d %r" % (
+            a["code"], a["out"][-120:], b["code"], b["out"][-120:])})
+        return
+    d = cli.run("yaml_diff", [f, "-"], stdin_text=text, sandbox=box.dir)
+    if d["exc"]:
+        ctx.violation("yaml-diff/crash", {"case": case, "summary": d["exc"][:200]})
+        return
+    if d["code"] != 0 or d["out"].strip():
+        ctx.violation("yaml-diff/file-differs-from-its-own-bytes-on-stdin", {"case": case, "summary": "exit %d output %r" % (d["code"], d["out"][:200])})
+
+
 # ---- yaml-merge -----------------------------------------------------------------------------------------
 def case_merge(ctx, rng, box, sub):
     lt = C05.gen_tree(rng, 0, rng.choice(["map", "map", "seq", "aoh"]))
@@ -690,7 +729,7 @@ def run_shard(ctx):
     want = sz["cases"] // ctx.nshards
     wsub = max(5, sz["sub"] // ctx.nshards)
     nsub = 0
-    funcs = [case_get, case_get, case_get, case_set, case_set, case_merge, case_diff, case_validate, case_set_delete_many]
+    funcs = [case_get, case_get, case_get, case_set, case_set, case_merge, case_diff, case_validate, case_set_delete_many, case_stdin_stream]
     i = 0
     while ctx.evaluations < want:
         f = funcs[i % len(funcs)]
